@@ -372,7 +372,7 @@ def check_set_output(rep, line, items, leaves, out):
 def candidate_lines(rng, tier, set_cases, impl_out):
     """mutants of the honest proofs the implementation produced -> [(validate line, meta)]"""
     cands = []
-    budget = 1200 if tier == "quick" else 40000
+    budget = 1000 if tier == "quick" else 40000
     hcost, hbudget = 0, (7000 if tier == "quick" else 600000)
     order = list(range(len(set_cases)))
     rng.shuffle(order)
@@ -570,7 +570,7 @@ def run(ctx):
     # malformed / nested proofs are validated against their OWN root (so that the root test passes) and a random root
     fp_lines = ["mset.fromproof %s %s" % (hexo(pb), it.hex()) for pb, it, _ in extra]
     # also honest + mutated proofs through from_proof
-    for l, m in cands[:200 if tier == "quick" else 4000]:
+    for l, m in cands[:150 if tier == "quick" else 4000]:
         fp_lines.append("mset.fromproof %s %s" % (hexo(m[1]), m[2].hex()))
     fp_impl = run_impl(fp_lines, tier)
     fp_model = C.run_lines(C.VRUN(UNIT), fp_lines) if have_model else ["MODEL-UNAVAILABLE"] * len(fp_lines)
